@@ -1075,29 +1075,32 @@ theorem routes_deselects_excl {V} (r : Runner V) (p : Key) (o : V) (n : Key)
     have : sel.contains n = true := List.contains_iff_mem.mpr h
     rw [this] at hm; exact absurd hm.2.1 (by simp)
 
-/-- what is known at a round boundary (after `calcNext` produced the next tasks) -/
-structure Boundary {V} (r : Runner V) (H : List (Done V)) (F : Key → Nat) (cm : Chans V) : Prop where
+/-- what is known at a round boundary (after `calcNext` produced the next tasks): `Hc` are the
+    completions that have been processed, `H ⊇ Hc` a history the soundness invariant holds for
+    (batch loop: the same; eager loop: the outputs of everything submitted) -/
+structure Boundary {V} (r : Runner V) (Hc H : List (Done V)) (F : Key → Nat) (cm : Chans V) : Prop where
+  sub : ∀ d, d ∈ Hc → d ∈ H
   k : K r H cm
   sh : shapes cm = shapes (initChans r)
   bound : ∀ n, F n + skOf cm n ≤ 1
-  rp : ∀ p, ((∃ o, (p, o) ∈ H) ∨ skOf cm p = 1) → RP F cm p
+  rp : ∀ p, ((∃ o, (p, o) ∈ Hc) ∨ skOf cm p = 1) → RP F cm p
   untr : ∀ n c, (n, c) ∈ cm → c.triggered = false
   hf : ∀ p o, (p, o) ∈ H → p = START ∨ 1 ≤ F p
   fn : ∀ p o o', (p, o) ∈ H → (p, o') ∈ H → o = o'
   just : ∀ n, 1 ≤ F n → lookupList n r.ctrlPreds ≠ [] →
       ∃ p, p ∈ lookupList n r.ctrlPreds ∧ ∃ o, (p, o) ∈ H ∧ RoutesC r p o n
 
-theorem completed_not_skipped {V} {r : Runner V} {H : List (Done V)} {F : Key → Nat} {cm : Chans V}
-    (b : Boundary r H F cm) (hstart : START ∉ akeys cm) (p : Key) (o : V) (h : (p, o) ∈ H) : skOf cm p = 0 := by
+theorem completed_not_skipped {V} {r : Runner V} {Hc H : List (Done V)} {F : Key → Nat} {cm : Chans V}
+    (b : Boundary r Hc H F cm) (hstart : START ∉ akeys cm) (p : Key) (o : V) (h : (p, o) ∈ H) : skOf cm p = 0 := by
   rcases b.hf p o h with rfl | h1
   · unfold skOf; rw [alookup_none_of_not_mem _ _ hstart]
   · have := b.bound p; omega
 
 /-- completeness of the skip flags: what the specification calls skipped is flagged -/
-theorem skippedS_flagged {V} {r : Runner V} {H : List (Done V)} {F : Key → Nat} {cm : Chans V}
-    (hd : r.dag = true) (b : Boundary r H F cm) (hstart : START ∉ akeys cm)
+theorem skippedS_flagged {V} {r : Runner V} {Hc H : List (Done V)} {F : Key → Nat} {cm : Chans V}
+    (hd : r.dag = true) (b : Boundary r Hc H F cm) (hstart : START ∉ akeys cm)
     (hp4 : ∀ n, lookupList n r.ctrlPreds ≠ [] → n ∈ akeys cm) :
-    ∀ n, SkippedS r H n → skOf cm n = 1 := by
+    ∀ n, SkippedS r Hc n → skOf cm n = 1 := by
   intro n hs
   induction hs with
   | intro n hne hpre ih =>
@@ -1105,9 +1108,9 @@ theorem skippedS_flagged {V} {r : Runner V} {H : List (Done V)} {F : Key → Nat
     have keys := chan_ctrl_keys r hd cm b.sh b.k.nd n c hc
     have hl := alookup_of_mem_nodup cm b.k.nd n c hc
     -- a control predecessor that is not "deselecting" is flagged
-    have pre : ∀ p, p ∈ lookupList n r.ctrlPreds → (∃ o, (p, o) ∈ H ∧ Deselects r p o n) ∨ skOf cm p = 1 := by
+    have pre : ∀ p, p ∈ lookupList n r.ctrlPreds → (∃ o, (p, o) ∈ Hc ∧ Deselects r p o n) ∨ skOf cm p = 1 := by
       intro p hp
-      by_cases hdz : ∃ o, (p, o) ∈ H ∧ Deselects r p o n
+      by_cases hdz : ∃ o, (p, o) ∈ Hc ∧ Deselects r p o n
       · exact Or.inl hdz
       · exact Or.inr (ih p hp hdz)
     -- `n` was never started
@@ -1116,7 +1119,7 @@ theorem skippedS_flagged {V} {r : Runner V} {H : List (Done V)} {F : Key → Nat
       · exfalso
         obtain ⟨p, hp, o, ho, hr⟩ := b.just n h0 hne
         rcases pre p hp with ⟨o', ho', hdz⟩ | hfl
-        · rw [b.fn p o' o ho' ho] at hdz
+        · rw [b.fn p o' o (b.sub _ ho') ho] at hdz
           exact routes_deselects_excl r p o n hr hdz
         · have := completed_not_skipped b hstart p o ho
           omega
@@ -1128,7 +1131,7 @@ theorem skippedS_flagged {V} {r : Runner V} {H : List (Done V)} {F : Key → Nat
       have hall : ∀ p d, (p, d) ∈ c.ctrl → d = Dep.skipped := by
         intro p d hm
         have hp := (keys p).mpr (mem_akeys_of_mem p d _ hm)
-        have hres : (∃ o, (p, o) ∈ H) ∨ skOf cm p = 1 := by
+        have hres : (∃ o, (p, o) ∈ Hc) ∨ skOf cm p = 1 := by
           rcases pre p hp with ⟨o, ho, _⟩ | h
           · exact Or.inl ⟨o, ho⟩
           · exact Or.inr h
@@ -1171,7 +1174,7 @@ theorem skippedS_flagged {V} {r : Runner V} {H : List (Done V)} {F : Key → Nat
             exfalso
             obtain ⟨o, ho, hr⟩ := b.k.rdy n c hc p hm
             rcases pre p hp with ⟨o', ho', hdz⟩ | hfl
-            · rw [b.fn p o' o ho' ho] at hdz
+            · rw [b.fn p o' o (b.sub _ ho') ho] at hdz
               exact routes_deselects_excl r p o n hr hdz
             · have := completed_not_skipped b hstart p o ho
               omega
@@ -1185,10 +1188,10 @@ theorem skippedS_flagged {V} {r : Runner V} {H : List (Done V)} {F : Key → Nat
       exact hsk (b.k.flag n c hc hcne hall)
 
 /-- **completeness at a round boundary**: a node the specification calls enabled has been started -/
-theorem complete_at {V} {r : Runner V} {H : List (Done V)} {F : Key → Nat} {cm : Chans V}
-    (hd : r.dag = true) (b : Boundary r H F cm) (hstart : START ∉ akeys cm)
+theorem complete_at {V} {r : Runner V} {Hc H : List (Done V)} {F : Key → Nat} {cm : Chans V}
+    (hd : r.dag = true) (b : Boundary r Hc H F cm) (hstart : START ∉ akeys cm)
     (hp4 : ∀ n, lookupList n r.ctrlPreds ≠ [] → n ∈ akeys cm) :
-    ∀ n, Enabled r H n → 1 ≤ F n := by
+    ∀ n, Enabled r Hc n → 1 ≤ F n := by
   intro n ⟨hne, hctrl, ⟨p0, hp0, o0, ho0, hr0⟩, hdata⟩
   apply Classical.byContradiction
   intro hF
@@ -1196,7 +1199,7 @@ theorem complete_at {V} {r : Runner V} {H : List (Done V)} {F : Key → Nat} {cm
   obtain ⟨c, hc⟩ := exists_of_mem_akeys _ _ (hp4 n hne)
   have keys := chan_ctrl_keys r hd cm b.sh b.k.nd n c hc
   have dkeys := chan_data_keys r hd cm b.sh n c hc
-  have resolved : ∀ p, ((∃ o, (p, o) ∈ H) ∨ SkippedS r H p) → RP F cm p := by
+  have resolved : ∀ p, ((∃ o, (p, o) ∈ Hc) ∨ SkippedS r Hc p) → RP F cm p := by
     intro p hp
     rcases hp with h | h
     · exact b.rp p (Or.inl h)
@@ -1209,9 +1212,9 @@ theorem complete_at {V} {r : Runner V} {H : List (Done V)} {F : Key → Nat} {cm
       have := (b.k.sk n c hc).all hsk p0 d hdm
       subst this
       rcases b.k.skp n c hc p0 hdm with h | ⟨o', ho', hdz⟩
-      · have := completed_not_skipped b hstart p0 o0 ho0
+      · have := completed_not_skipped b hstart p0 o0 (b.sub _ ho0)
         omega
-      · rw [b.fn p0 o' o0 ho' ho0] at hdz
+      · rw [b.fn p0 o' o0 ho' (b.sub _ ho0)] at hdz
         exact routes_deselects_excl r p0 o0 n hr0 hdz
     · simpa using hsk
   have hcne : c.ctrl ≠ [] := by
@@ -1589,8 +1592,8 @@ theorem CInv_step {V} (ops : ValOps V) (r : Runner V) (wf : DagWF r) (wf2 : DagW
       refine ⟨o, ?_⟩
       simp only [histOf, List.mem_cons, List.mem_filterMap]
       exact Or.inr hm
-  have hb : Boundary r (histOf r x (tasks :: tr)) (fun n => (keysOfTr (ts :: tasks :: tr)).count n) cm' := by
-    refine ⟨hk'.k, hl'.sh, linv_static r wf cm' ts (tasks :: tr) hl', ?_, r2, ?_, ?_, ?_⟩
+  have hb : Boundary r (histOf r x (tasks :: tr)) (histOf r x (tasks :: tr)) (fun n => (keysOfTr (ts :: tasks :: tr)).count n) cm' := by
+    refine ⟨fun _ h => h, hk'.k, hl'.sh, linv_static r wf cm' ts (tasks :: tr) hl', ?_, r2, ?_, ?_, ?_⟩
     · intro p hp
       apply r1
       rcases hp with ⟨o, ho⟩ | hp
@@ -1710,8 +1713,8 @@ theorem CInv_start {V} (ops : ValOps V) (r : Runner V) (wf : DagWF r) (wf2 : Dag
   have eF : (fun n => 0 + (akeys ts).count n) = (fun n => (keysOfTr (ts :: ([] : Trace V))).count n) := by
     funext n; simp [keysOfTr, akeys]
   rw [eF] at r1
-  have hb : Boundary r (histOf r x []) (fun n => (keysOfTr (ts :: ([] : Trace V))).count n) cm' := by
-    refine ⟨j1, j2, linv_static r wf cm' ts [] hl', ?_, r2, ?_, ?_, ?_⟩
+  have hb : Boundary r (histOf r x []) (histOf r x []) (fun n => (keysOfTr (ts :: ([] : Trace V))).count n) cm' := by
+    refine ⟨fun _ h => h, j1, j2, linv_static r wf cm' ts [] hl', ?_, r2, ?_, ?_, ?_⟩
     · intro p hp
       apply r1
       rcases hp with ⟨o, ho⟩ | hp
